@@ -45,7 +45,7 @@ def ext_line(rnd, op, nreg, n):
 def gen_case(rnd, tier):
     rsize = rnd.choice([8, 8, 16, 32] + ([64] if tier == "thorough" else []))
     R = rnd.choice([1, 2, 3])
-    N, M = rnd.choice([0, 1, 2]), rnd.choice([0, 1, 2])
+    N, M = rnd.choice([0, 1, 2, 3, 4]), rnd.choice([0, 1, 2, 3, 4])
     nreg = 1 << R
     n = rnd.randint(3, 14)
     O = max(2, (n + 3).bit_length())
@@ -154,11 +154,27 @@ def gen_basm(rnd):
     return "\n".join(lines) + "\n", rsize
 
 
+def directed_hwopt(rnd):
+    """every opcode whose hardware is pruned by onlydestregs (rset, inc, dec, jz, and cpy/rset through mov) with a destination
+    register of its own, so that an arm pruned with another opcode's register set shows"""
+    regs = [0, 1, 2, 3]
+    rnd.shuffle(regs)
+    a_, b_, c_, d_ = regs
+    lines = ["%section code .romtext iomode:async", "  entry _start", "_start:",
+             "  mov r%d, i0" % d_, "  rset r%d, %d" % (a_, rnd.choice([5, 9, 100])), "  inc r%d" % b_, "  dec r%d" % c_, "  inc r%d" % b_,
+             "  jz r%d, _skip" % d_, "  mov o0, r%d" % b_, "_skip:", "  mov o0, r%d" % c_, "  mov o0, r%d" % a_, "  add r%d, r%d" % (b_, a_),
+             "  mov o0, r%d" % b_, "  j _start", "%endsection", "%meta cpdef cpu romcode:code",
+             "%meta iodef a type:io", "%meta ioatt a cp:bm, type:input, index:0", "%meta ioatt a cp:cpu, type:input, index:0",
+             "%meta iodef b type:io", "%meta ioatt b cp:cpu, type:output, index:0", "%meta ioatt b cp:bm, type:output, index:0",
+             "%%meta bmdef global registersize:%d" % 8]
+    return "\n".join(lines) + "\n", 8
+
+
 def hwopt_part(res, rnd, a):
     """enabling a hardware optimisation derived from the program never changes the behaviour: the same BASM source rendered
     plainly and with onlydestregs, both run under Vlog.Sem and compared with the simulator at retire points"""
     n = 6 if a.tier == "quick" else 60
-    srcs = [gen_basm(rnd) for _ in range(n)]
+    srcs = [directed_hwopt(rnd), directed_hwopt(rnd)] + [gen_basm(rnd) for _ in range(n)]
     ticks = 40
     inval = [rnd.randrange(1, 200) for _ in srcs]
     go = simlib.run_sims([{"bm": {"basm": s, "nodyn": True}, "env": [{"in": [[v, 1]], "outrecv": [-1]}] * ticks, "ticks": ticks}
